@@ -226,6 +226,59 @@ def run(ctx):
                                       "units of another variable" % norm(st.targets[0])))
         else:
             ctx.ok('R-PARAMDEAD', name, 'src/PseudoNetCDF/%s PseudoNetCDFFile.%s' % (FILES, name), 'no dead re-assignment of a parameter')
+    # ---- R-RESUNIT (shared with C16): the inverse lookup does not truncate the decoded times below their resolution
+    ctx.rule('R-RESUNIT', 'time2t: the datetime64 unit chosen for a resolution is not coarser than that resolution')
+    r_ = lints.resolution_table(fm.func('PseudoNetCDFFile.time2t'))
+    w7 = 'src/PseudoNetCDF/%s PseudoNetCDFFile.time2t' % FILES
+    if r_[0] == 'ok':
+        ctx.ok('R-RESUNIT', 'resolution table', w7, '%d resolutions map to a unit at least as fine' % r_[1])
+    elif r_[0] == 'wrong':
+        ctx.violation(Finding('R-RESUNIT', FILES, 'PseudoNetCDFFile.time2t', r_[1], "times whose finest non-zero field is '%s' are converted to datetime64[%s] (needed: [%s] or finer): looking up the file's own "
+                              'decoded times no longer returns 0..n-1' % (r_[2], r_[3], r_[4])))
+    else:
+        ctx.undec('R-RESUNIT', 'resolution table', w7, r_[1])
+    # ---- R-TIMEWIDTH: seconds since the epoch are never narrowed to a 32-bit integer (overflow in 2038)
+    ctx.rule('R-TIMEWIDTH', 'synthesised CF time (seconds since 1970) is not cast to a 4-byte integer')
+    cm = ctx.src.mod('conventions/ioapi/_ioapi.py')
+    atv = cm.func('add_time_variable')
+    w8 = 'src/PseudoNetCDF/conventions/ioapi/_ioapi.py add_time_variable'
+    I32 = ("'i'", "'i4'", "'>i'", "'<i'", "'>i4'", "'<i4'", "'int32'", 'np.int32', 'numpy.int32', "'l'")
+    nw = 0
+    for st in iter_stmts(atv.body):
+        if not (isinstance(st, ast.Assign) and isinstance(st.targets[0], ast.Name)):
+            continue
+        secs = 'total_seconds' in norm(st.value) or any(isinstance(n, ast.Name) and n.id in ('time', 'off') for n in ast.walk(st.value))
+        if not secs:
+            continue
+        nw += 1
+        narrow = [c for c in ast.walk(st.value) if isinstance(c, ast.Call) and (
+            (isinstance(c.func, ast.Attribute) and c.func.attr == 'astype' and c.args and norm(c.args[0]) in I32 and
+             ('total_seconds' in norm(c.func.value) or any(isinstance(n, ast.Name) and n.id in ('time', 'off') for n in ast.walk(c.func.value)))) or
+            ((dotted(c.func) or '').split('.')[-1] in ('array', 'asarray') and kw(c, 'dtype') is not None and norm(kw(c, 'dtype')) in I32 and 'total_seconds' in norm(c)))]
+        if narrow:
+            ctx.violation(Finding('R-TIMEWIDTH', 'conventions/ioapi/_ioapi.py', 'add_time_variable', st, 'seconds since 1970 are cast to a 4-byte integer (%s): flags after 2038-01-19 wrap around, so the CF time '
+                                  'no longer decodes to the TFLAG instants' % norm(narrow[0])[-30:]))
+        else:
+            ctx.ok('R-TIMEWIDTH', norm(st)[:50], w8, 'kept in float64 / Python integers')
+    ctx.floor('assignments of epoch seconds in add_time_variable', nw, 3)
+    # ---- R-TFLAGORDER: a forced rebuild of TFLAG decodes the times from the attributes, i.e. after the old flags are gone
+    ctx.rule('R-TFLAGORDER', 'updatetflag(overwrite): the old TFLAG is deleted before getTimes() is asked for the new times (getTimes prefers TFLAG over SDATE/STIME/TSTEP)')
+    iom = ctx.src.mod('cmaqfiles/_ioapi.py')
+    utf = iom.func('ioapi_base.updatetflag')
+    w9 = 'src/PseudoNetCDF/cmaqfiles/_ioapi.py ioapi_base.updatetflag'
+    ob = [st for st in utf.body if isinstance(st, ast.If) and norm(st.test) == 'overwrite']
+    if not ob:
+        ctx.undec('R-TFLAGORDER', 'overwrite branch', w9, 'branch not found')
+    else:
+        dels = [s2 for s2 in iter_stmts(ob[0].body) if isinstance(s2, ast.Delete) and "variables['TFLAG']" in norm(s2)]
+        gts = [s2 for s2 in iter_stmts(ob[0].body) if any(isinstance(c, ast.Call) and dotted(c.func) == 'self.getTimes' for c in ast.walk(s2)) and not isinstance(s2, ast.If)]
+        if not gts:
+            ctx.undec('R-TFLAGORDER', 'overwrite branch', w9, 'getTimes() not called in the branch')
+        elif dels and dels[0].lineno < gts[0].lineno:
+            ctx.ok('R-TFLAGORDER', 'overwrite branch', w9, 'del TFLAG (line %d) before getTimes() (line %d)' % (dels[0].lineno, gts[0].lineno))
+        else:
+            ctx.violation(Finding('R-TFLAGORDER', 'cmaqfiles/_ioapi.py', 'ioapi_base.updatetflag', gts[0], 'getTimes() is called while the old TFLAG still exists: it decodes the old flags, so a requested start '
+                                  'date / step is ignored and SDATE, STIME, TSTEP and TFLAG disagree afterwards'))
     # ---- R-TZDROP
     n = check_tzdrop(ctx, fm, 'PseudoNetCDFFile.date2num')
     ctx.floor('tz drop sites', n, 1)
